@@ -9,10 +9,10 @@ MODELLED_FUNCS = {'sugar/_io/stockholm.py': ['row2fts', 'fts2row', 'read_stockho
 OPS = {'rt': 0, 'blocks': 1, 'multi': 2, 'read': 3, 'row2fts': 4, 'fts2row': 5, 'rowrt': 6, 'ftsrt': 7, 'readc': 8, 'multiloc': 9}
 RESERVED = ['items', 'keys', 'values', 'get', 'update', 'pop', 'copy', 'setdefault', 'clear', 'popitem']
 RULE = ('abstract alignments (1-6 rows, width 1-70, random GF/GC/GS/GR sets with adversarial ids/keys/values) written by sugar and '
-        'read back (StringIO handle and real files); the same alignments rendered by an independent interleaving renderer at every '
+        'read back (StringIO handle, real files by name/Path/handle/BytesIO/glob pattern, zip/tar/gztar/bz2 archives); the same alignments rendered by an independent interleaving renderer at every '
         'block width; 1-4 alignments per handle read repeatedly; raw texts with repeated GF/GS tags (adjacent and non-adjacent, merged with other tags and moved between sequence blocks), comments, blank lines, '
         'shuffled markup and garbage lines; HISTORIES (several calls in one process on the same objects/texts/rows with in-place edits of baskets, of read results and of returned feature lists in between, other options and colliding inputs; every step compared with the model on the current value); random well-formed and malformed feature lists and rows for fts2row/row2fts and both '
-        'compositions; non-trivial = distinct case with annotations of some kind, >1 block, >1 alignment, repeated lines, '
+        'compositions; features with several locations (split, nested, later start with earlier stop, both strands, any order); non-trivial = distinct case with annotations of some kind, >1 block, >1 alignment, repeated lines, '
         'shared boundary / open end / offset / long feature')
 TRUSTED = ['CPython str.strip/split(maxsplit)/startswith/find/center/upper, re.split("[.]+"), dict insertion order, sorted() stability, '
            'io.StringIO line iteration (all modelled by hand and compared on every case)',
@@ -53,8 +53,9 @@ def model_val(case):
     alns = [case['aln']] if 'aln' in case else case.get('alns', [])
     n = case.get('bw', case.get('n', 0))
     t = case.get('text', case.get('row', ''))
-    mf = coq_list(['(%s, %s)' % (coq_bs(name), coq_list(['(%s, %s, %s)' % (coq_nat(a), coq_nat(b), coq_N(d)) for a, b, d in locs]))
-                   for name, locs in case.get('mfts', [])])
+    mf = coq_list(['(%s, %s, %s)' % (coq_bs(name), 'true' if minus else 'false',
+                                     coq_list(['(%s, %s, %s)' % (coq_nat(a), coq_nat(b), coq_N(d)) for a, b, d in locs]))
+                   for name, minus, locs in case.get('mfts', [])])
     return '(run_C15 %s %s %s %s %s %s)' % (coq_N(OPS[op]), coq_list([coq_aln(a) for a in alns]), coq_nat(n), coq_bs(t),
                                                coq_fts(case.get('fts', [])), mf)
 
@@ -263,13 +264,34 @@ def impl(case):
     if op == 'rt':
         from sugar import read
         b = build(case['aln'])
-        if case.get('via') == 'file':
+        via = case.get('via')
+        if via not in (None, '', 'str'):
             d = tempfile.mkdtemp(prefix='C15-', dir='/tmp')
             try:
                 p = os.path.join(d, 'x.stk')
-                b.write(p, 'stockholm')
-                text = open(p, newline='').read()
-                r = read(p)          # format auto-detected
+                if via in ('zip', 'tar', 'gztar', 'arch'):      # write(..., archive=...) and read of the produced archive
+                    b.write(p, 'stockholm', archive=True if via == 'arch' else via)
+                    (name,) = os.listdir(d)
+                    text = b.tofmtstr('stockholm')
+                    r = read(os.path.join(d, name))
+                else:
+                    b.write(p, 'stockholm')
+                    text = open(p, newline='').read()
+                    if via == 'glob':                              # a pattern matching exactly the file
+                        r = read(os.path.join(d, '*.stk'))
+                    elif via == 'glob2':
+                        r = read(os.path.join(d, '**', 'x.st?'))
+                    elif via == 'handle':
+                        with open(p) as fh:
+                            r = read(fh, 'stockholm')
+                    elif via == 'bytes':
+                        with open(p, 'rb') as fh:
+                            r = read(io.BytesIO(fh.read()))
+                    elif via == 'path':
+                        import pathlib
+                        r = read(pathlib.Path(p))
+                    else:
+                        r = read(p)          # format auto-detected
                 assert all(s.meta._fmt == 'stockholm' for s in r)
                 return [text, [canon(r), '']]
             finally:
@@ -299,11 +321,15 @@ def impl(case):
     if op == 'multiloc':
         from sugar.core.fts import Defect, Feature, FeatureList, Location
         fl = []
-        for name, locs in case['mfts']:
-            ft = Feature(None, [Location(a, b, defect=Defect(d)) for a, b, d in locs])
+        for name, minus, locs in case['mfts']:
+            ft = Feature(None, [Location(a, b, strand='-' if minus else '+', defect=Defect(d)) for a, b, d in locs])
             ft.meta.name = name
             fl.append(ft)
-        return fts2row(FeatureList(fl))
+        try:
+            r1 = fts2row(FeatureList(fl))
+        except Exception as e:
+            return [canon_exc(e), canon_exc(e)]
+        return [r1, [ft_tuple(ft) for ft in row2fts(r1)]]
     if op == 'row2fts':
         return [ft_tuple(ft) for ft in row2fts(case['row'])]
     if op == 'fts2row':
@@ -529,7 +555,18 @@ def spec(case, got):
                 exp.append(t)
         return None if comments == exp else 'comments %r, expected %r' % (comments, exp)
     if op == 'multiloc':
-        return None
+        if isinstance(got, dict):
+            return 'raised %s' % got['e']
+        red = []
+        for name, minus, locs in case['mfts']:          # first principles: the feature spans all its locations
+            srt = sorted(locs, key=(lambda l: -l[1]) if minus else (lambda l: l[0]))
+            red.append([min(l[0] for l in locs), max(l[1] for l in locs), (1 if srt[0][2] & 5 else 0) | (2 if srt[-1][2] & 10 else 0), name])
+        red.sort(key=lambda f: (f[0], f[1]))
+        row, back = got
+        why = spec_row_of(red, row)
+        if why:
+            return why
+        return None if back == red else 'row2fts(fts2row(fts)) = %r, expected %r' % (back, red)
     if op == 'read':
         if case.get('expect') is None or zlib.crc32(case['text'].encode('latin-1')) != case.get('crc'):
             return None          # (a shrunk text no longer belongs to its expectation)
@@ -871,6 +908,9 @@ def gen_hist_stk(rng):
     return {'op': 'hist', '_kind': 'stk', '_steps': fixed + keep}
 
 
+VIAS = ['file', 'glob', 'zip', 'handle', 'tar', 'glob2', 'arch', 'path', 'gztar', 'bytes']
+
+
 def gen_cases(rng, tier):
     T = tier == 'thorough'
     cases = []
@@ -881,7 +921,7 @@ def gen_cases(rng, tier):
             a = spoil_aln(rng, a)
         if rng.random() < 0.1:
             a['empties'] = True
-        cases.append({'op': 'rt', 'aln': a, 'via': 'file' if i % 10 == 0 else 'str'})
+        cases.append({'op': 'rt', 'aln': a, 'via': VIAS[(i // 3) % len(VIAS)] if i % 3 == 0 else 'str'})
     # --- interleaved rendering, every block width for small alignments
     for i in range(400 if T else 40):
         a = gen_aln(rng, maxrows=4, maxw=12 if not T else 20, small=rng.random() < 0.3)
@@ -940,19 +980,38 @@ def gen_cases(rng, tier):
             lines[rng.randrange(len(lines))] = rng.choice(['garbage', '#=GF k', '# late comment', '#=GX a b c'])
             text = '\n'.join(lines)
         cases.append({'op': 'readc', 'text': text})
-    # --- features with several locations (warning branch, stockholm.py:61-62)
-    for i in range(300 if T else 30):
+    # --- features with several locations (warning branch, stockholm.py:61-62): split, nested, later start / earlier stop,
+    #     both strands, any order; fts2row must draw the whole range
+    for i in range(600 if T else 80):
         fts = gen_wf_fts(rng)
         mf = []
         for start, stop, d, name in fts:
+            minus = rng.random() < 0.4
             locs = [[start, stop, d]]
-            if stop - start >= 4 and rng.random() < 0.7:
+            k = rng.randrange(4)
+            if stop - start >= 4 and k == 0:        # two pieces with a gap
                 cut = rng.randint(start + 1, stop - 2)
                 gap = rng.randint(1, stop - cut - 1)
-                locs = [[start, cut, rng.choice([d & 1, d & 1, d & 1 | 2, d | 8])], [cut + gap, stop, rng.choice([d & 2, d & 2, d & 2 | 1, d | 4])]]
-                if rng.random() < 0.3:
-                    locs.reverse()
-            mf.append([name, locs])
+                locs = [[start, cut, d & 1], [cut + gap, stop, d & 2]]
+            elif stop - start >= 4 and k == 1:      # an inner location contained in the outer one
+                a = rng.randint(start + 1, stop - 2)
+                locs = [[start, stop, d], [a, rng.randint(a + 1, stop - 1), 0]]
+            elif stop - start >= 4 and k == 2:      # the later-starting location stops earlier than the range end; three pieces
+                a = rng.randint(start + 1, stop - 2)
+                locs = [[start, stop - 1 if rng.random() < 0.5 else stop, d & 1], [a, rng.randint(a + 1, stop - 1), 0],
+                        [rng.randint(start, stop - 1), stop, d & 2]]
+            if len(locs) > 1:
+                # the end flags are read from the first / last location of the strand-sorted tuple: put them there
+                key = (lambda l: -l[1]) if minus else (lambda l: l[0])
+                srt = sorted(locs, key=key)
+                for l in locs:
+                    l[2] = 0
+                srt[0][2] |= d & 1
+                srt[-1][2] |= d & 2
+                if rng.random() < 0.15:
+                    rng.choice(locs)[2] |= rng.choice([1, 2, 4, 8])
+                rng.shuffle(locs)
+            mf.append([name, minus, locs])
         cases.append({'op': 'multiloc', 'mfts': mf})
     # --- histories: several calls in one process, results mutated in between (state-independence stream)
     for i in range(1500 if T else 170):
@@ -987,7 +1046,7 @@ def nontrivial(case, got):
         if op == 'blocks':
             w = len(a['rows'][0][1]) if a['rows'] else 0
             return 'blocks:%s:%s' % (kinds, 'multi' if 0 < case['bw'] < w else 'single')
-        return ('rt:' + kinds) if kinds else None
+        return ('rt:' + kinds + ':' + str(case.get('via'))) if kinds else None
     if op == 'multi':
         return 'multi' if len(case['alns']) > 1 else None
     if op == 'read':
@@ -1008,7 +1067,7 @@ def nontrivial(case, got):
     if op == 'readc':
         return 'readc' if isinstance(got, list) and got[1] else None
     if op == 'multiloc':
-        return 'multiloc' if any(len(l) > 1 for _, l in case['mfts']) else None
+        return 'multiloc' if any(len(l) > 1 for _, _, l in case['mfts']) else None
     row = case['row']
     return op if ('|' in row and re.search('[^.|]', row)) else None
 
@@ -1020,6 +1079,8 @@ def histkey(case, got):
         return ks + ['hist=' + case.get('_kind', ''), 'steps=%d' % len(case['_steps'])]
     if isinstance(got, dict):
         ks.append('raises=' + got['e'])
+    if op == 'rt':
+        ks.append('via=' + str(case.get('via')))
     if op in ('rt', 'blocks'):
         w = len(case['aln']['rows'][0][1]) if case['aln']['rows'] else 0
         ks.append('width=' + ('1' if w <= 1 else '2-9' if w < 10 else '10+'))
@@ -1083,12 +1144,13 @@ LEVEL_TEXT = ('Machine-checked Coq theorems over a line-by-line Gallina model of
               'sugar (public read/write entry points, StringIO handles and real files) and the model on the same generated cases on every '
               'run (151/151 statements of stockholm.py executed in the quick tier), and by an independent Python oracle (own interleaving '
               'renderer, own row parser).')
-LEVEL_NOTE = ('All 20 theorems closed under the global context (no axioms). Proved for all inputs: stk_roundtrip, stk_stop, stk_multi, '
+LEVEL_NOTE = ('All 23 theorems closed under the global context (no axioms). Proved for all inputs: stk_roundtrip, stk_stop, stk_multi, '
               'stk_interleave(+_stop), stk_columns_anywhere, stk_gf_join, stk_gs_join, gf_all_frags, gs_all_frags, read_text_gf_join, '
-              'read_text_gs_join, lines_items, row_fts_inverse, row_fts_row, row_canonical; the two bounded-box theorems '
+              'read_text_gs_join, lines_items, row_fts_inverse, row_fts_row, row_canonical, range_spec, range_perm, multi_ft_range (a feature with several locations is drawn over min(starts)..max(stops), independent of the order of the locations); the two bounded-box theorems '
               '(row_fts_row_box, fts_row_fts_box, box_sizes) are kept as regression. Tested only (correspondence): state independence of the calls (history stream: 300 histories in quick; the pure model is the expectation of every step); that the Gallina model '
-              'is sugar (every case, both tiers); writer behaviour for absent/empty _stockholm containers; comments=[] collection; features '
-              'with several locations (fts2row uses the location range and the outer defects; outside the domain); error classes on malformed '
+              'is sugar (every case, both tiers); writer behaviour for absent/empty _stockholm containers; comments=[] collection; the transports of the round trip (plain name, pathlib.Path, text handle, BytesIO, glob patterns matching '
+              'exactly the file, write(archive=zip|tar|gztar|True) + read of the archive: all must give the model round trip); which '
+              'location of a multi-location feature carries the end flags (strand-sorted first/last; modelled, compared); error classes on malformed '
               'rows/feature lists. fts2row(row2fts(row)) = row on arbitrary rows is NOT claimed (false by design: names are re-centred and '
               'trailing dots dropped); the statement is on the feature level plus the fixed-point theorem. No unreachable statements in the '
               'modelled functions (row2fts, fts2row, read_stockholm, write_stockholm: 142/142 executed; the two asserts of row2fts never '
